@@ -34,6 +34,10 @@ const prelude = `(set-option :produce-models true)
 (assert (= nilSlice (mkSlice 0 #x0000000000000000 #x0000000000000000 #x0000000000000000)))
 (assert (= (ityp nilIface) 0))
 (assert (forall ((s Str)) (! (bvult (slen s) #x4000000000000000) :pattern ((slen s)))))
+(assert (forall ((a Str) (b Str)) (! (= (slen (sconcat a b)) (bvadd (slen a) (slen b))) :pattern ((sconcat a b)))))
+(assert (forall ((a Str) (b Str) (i (_ BitVec 64))) (! (=> (and (bvsle #x0000000000000000 i) (bvslt i (bvadd (slen a) (slen b)))) (= (sat (sconcat a b) i) (ite (bvslt i (slen a)) (sat a i) (sat b (bvsub i (slen a)))))) :pattern ((sat (sconcat a b) i)))))
+(assert (forall ((s Str) (lo (_ BitVec 64)) (hi (_ BitVec 64))) (! (=> (and (bvsle #x0000000000000000 lo) (bvsle lo hi) (bvsle hi (slen s))) (= (slen (ssub s lo hi)) (bvsub hi lo))) :pattern ((ssub s lo hi)))))
+(assert (forall ((s Str) (lo (_ BitVec 64)) (hi (_ BitVec 64)) (i (_ BitVec 64))) (! (=> (and (bvsle #x0000000000000000 lo) (bvsle lo hi) (bvsle hi (slen s)) (bvsle #x0000000000000000 i) (bvslt i (bvsub hi lo))) (= (sat (ssub s lo hi) i) (sat s (bvadd lo i)))) :pattern ((sat (ssub s lo hi) i)))))
 `
 
 type cmd struct {
